@@ -92,6 +92,10 @@ def run(chk):
     chk.analysed(wf, rf)
     chk.borrow("C14.R6", c01.codec_pair, chk, "ens", 2, wf, rf)
     chk.borrow("C14.R6", c01.r7_empty_shapes, chk)
+    # "... can be ... serialised": pickling / deep-copying an ensemble (or a conformer's parent) keeps the weights, which live in the
+    # ensemble's __dict__ (the state clauses of C06.R3 for ConformerEnsemble)
+    chk.borrow("C14.R9", c06.r3_state, chk, only=lambda o: ":ConformerEnsemble:state-includes:" in o["construct"])
+    chk.call(r2b_slices, chk, ens)
 
 
 def r1_together(chk, ens):
@@ -619,3 +623,29 @@ def r8_adopted_atom_count(chk, ens):
                 else:
                     chk.ok("C14.R8", key, f.where(s), f"reached only where the ensemble has no atoms of its own (or as many as the argument): {[norm(c) for c in conds]}")
     chk.require(n >= 1, "no adoption of argument-sized rows found in ConformerEnsemble (the blank-ensemble branch of append)")
+
+
+def r2b_slices(chk, ens):
+    """`ens[a:b:c]` is one of the ways to the views ("slice" in the quantifier): the rows it names are those python's own slice arithmetic
+    names for a sequence of n_conformers items - `range(*s.indices(n))` or `range(n)[s]`.  A hand-rolled resolution (`start or 0`,
+    `stop or n`, `step or 1`) is wrong for negative bounds, for `[::-1]`, for `[0:0]` and for bounds past the end: `ens[-2:]` hands
+    out views of every row, and a write through that slice moves all conformers."""
+    prog = chk.prog
+    gi = prog.method(ens, "__getitem__")
+    chk.require(gi is not None, "ConformerEnsemble.__getitem__ vanished")
+    src = norm(gi.node)
+    fields = [x for x in ast.walk(gi.node) if (isinstance(x, ast.Attribute) and x.attr in ("start", "stop", "step")) or
+              (isinstance(x, ast.MatchClass) and norm(x.cls) == "slice" and (x.kwd_attrs or x.patterns))]
+    uses_indices = ".indices(" in src
+    subscripts_range = any(isinstance(x, ast.Subscript) and isinstance(x.value, ast.Call) and call_name(x.value) == "range" for x in ast.walk(gi.node))
+    mentions_slice = "slice" in src
+    chk.require(mentions_slice, "ConformerEnsemble.__getitem__ no longer handles slices")
+    key = f"{gi.key}:slice-resolved-by-python's-own-arithmetic"
+    if fields and not uses_indices and not subscripts_range:
+        chk.fail("C14.R2", key, gi.where(fields[0]), f"__getitem__ takes the slice apart itself (`{short(fields[0], 40)}`) instead of `range(*s.indices(n_conformers))`: negative or missing "
+                 "bounds, a negative step and bounds past the end name other rows than python's slicing does - ens[-2:] yields views of every conformer, ens[:-1] none")
+    elif uses_indices or subscripts_range:
+        chk.ok("C14.R2", key, gi.where(), "rows of a slice come from slice.indices(n_conformers) / range(n)[slice]")
+    else:
+        chk.note("C14.R2: the slice arm of ConformerEnsemble.__getitem__ is in a form that is not classified; no verdict")
+        chk.ok("C14.R2", key, gi.where(), "not classified (noted)")
